@@ -36,12 +36,37 @@ def run(ck: Check, repo: Repo) -> None:
 
 
 def _setitem(ck: Check, repo: Repo) -> None:
-    fn = repo.fn(ST, "SegmentTree.__setitem__")
+    base = repo.cls(ST, "SegmentTree")
+    seen = []
+    for c in [base] + repo.subclasses("SegmentTree"):
+        f = repo.find_method(c, "__setitem__")
+        if f is None:
+            raise AnalysisError(f"{c.name}: no __setitem__")
+        if f not in seen:
+            seen.append(f)
+            _setitem_one(ck, repo, f)
+    _tree_ctor(ck, repo)
+
+
+def _setitem_one(ck: Check, repo: Repo, fn: Fn) -> None:
     cfg = CFG(fn.node)
     tb = TermBuilder(repo, fn, cfg=cfg, depth=0)
-    stores = [n for n in cfg.live_nodes() if n.kind == "stmt" and isinstance(n.ast, ast.Assign)
-              and isinstance(n.ast.targets[0], ast.Subscript) and dotted(n.ast.targets[0].value) == "self.tree"]
-    ck.floor("C11.1", len(stores), 2, "stores into self.tree in __setitem__")
+    stores = []
+    for n in cfg.live_nodes():
+        if n.kind == "stmt" and isinstance(n.ast, (ast.Assign, ast.AugAssign)):
+            tg = n.ast.targets[0] if isinstance(n.ast, ast.Assign) else n.ast.target
+            if isinstance(tg, ast.Subscript) and dotted(tg.value) == "self.tree":
+                stores.append(n)
+    ck.ob("C11.1", fn, fn.node, len(stores) >= 2, f"{fn.qualname} writes a leaf and its ancestors", construct=f"tree stores in {fn.qualname}")
+    aug = [n for n in stores if isinstance(n.ast, ast.AugAssign)]
+    for n in aug:
+        ck.ob("C11.1", fn, n.ast, False, "tree nodes are recomputed from their children, not adjusted incrementally",
+              detail="an in-place adjustment of an ancestor accumulates rounding error that is never corrected: the running total drifts "
+                     "away from the sum of the leaves (and can go negative after a huge priority was replaced)")
+    stores = [n for n in stores if isinstance(n.ast, ast.Assign)]
+    if len(stores) < 2:
+        return
+    pname = f"param:{fn.qualname}"
     loops = [n for n in cfg.live_nodes() if n.kind == "test" and isinstance(n.stmt, ast.While)]
     ck.ob("C11.1", fn, fn.node, len(loops) == 1, "one ancestor loop", construct="while loop in __setitem__")
     if len(loops) != 1:
@@ -50,14 +75,14 @@ def _setitem(ck: Check, repo: Repo) -> None:
     body = {n.id for n in cfg.live_nodes() if n.stmt is not None and any(x is n.stmt for b in loop.stmt.body for x in ast.walk(b))}
     leaf = [s for s in stores if s.id not in body]
     inner = [s for s in stores if s.id in body]
-    IDX = Poly.atom("param:SegmentTree.__setitem__.idx")
+    IDX = Poly.atom(f"{pname}.idx")
     CAP = tb.term(_expr("self.capacity"), cfg.entry)
     for s in leaf:
         t = tb.term(s.ast.targets[0].slice, s)
         ck.ob("C11.1", fn, s.ast, t == IDX + CAP and cfg.dominates(s, loop),
               "the leaf written is tree[idx + capacity] and the write precedes the ancestor loop", detail=f"index = {t.key()}")
         v = tb.term(s.ast.value, s)
-        ck.ob("C11.1", fn, s.ast, v == Poly.atom("param:SegmentTree.__setitem__.val"), "the leaf receives the value passed in")
+        ck.ob("C11.1", fn, s.ast, v == Poly.atom(f"{pname}.val"), "the leaf receives the value passed in")
     ck.ob("C11.1", fn, fn.node, len(leaf) == 1 and len(inner) == 1, "exactly one leaf write and one ancestor write",
           construct="tree stores in __setitem__")
     # loop test: idx >= 1  (or idx > 0)
@@ -100,6 +125,9 @@ def _setitem(ck: Check, repo: Repo) -> None:
     ck.ob("C11.1", fn, shifts[0].ast if shifts else fn.node,
           all(dotted(sft.ast.value) == "self.capacity" and sft.id not in body for sft in shifts) and len(shifts) <= 1,
           "the leaf offset (capacity) is added exactly once", construct="idx += self.capacity")
+
+
+def _tree_ctor(ck: Check, repo: Repo) -> None:
     # __getitem__ reads the same leaf
     gi = repo.fn(ST, "SegmentTree.__getitem__")
     gtb = TermBuilder(repo, gi, depth=0)
@@ -175,7 +203,31 @@ def _who_writes(ck: Check, repo: Repo) -> None:
     # ---- C11.3
     cfg = tb.cfg
     mp = [n for n in cfg.live_nodes() if n.kind == "stmt" and isinstance(n.ast, ast.Assign) and dotted(n.ast.targets[0]) == "self.max_priority"]
-    ck.floor("C11.3", len(mp), 1, "max_priority update in _update_priority")
+    callers_cover = False
+    if not mp:
+        # accepted alternative: every caller updates the running maximum itself, in the same iteration, with the priority it passes
+        callers_cover = True
+        for m in per.methods.values():
+            mcfg = CFG(m.node)
+            for c in calls_in(m.node):
+                if call_name(c) != "self._update_priority" or len(c.args) < 2:
+                    continue
+                if dotted(c.args[1]) == "self.max_priority":
+                    continue
+                cn = mcfg.node_of(c)
+                okc = False
+                for n2 in mcfg.live_nodes():
+                    if n2.kind == "stmt" and isinstance(n2.ast, ast.Assign) and dotted(n2.ast.targets[0]) == "self.max_priority" \
+                            and isinstance(n2.ast.value, ast.Call) and call_name(n2.ast.value) == "max" \
+                            and {ast.unparse(a) for a in n2.ast.value.args} == {"self.max_priority", ast.unparse(c.args[1])}:
+                        loops_c = [l for l in ast.walk(m.node) if isinstance(l, (ast.For, ast.While)) and any(x is c for x in ast.walk(l))]
+                        loops_n = [l for l in ast.walk(m.node) if isinstance(l, (ast.For, ast.While)) and any(x is n2.ast for x in ast.walk(l))]
+                        if loops_c == loops_n and cn is not None and mcfg.postdominates(n2, cn):
+                            okc = True
+                callers_cover = callers_cover and okc
+    ck.ob("C11.3", up, up.node, len(mp) >= 1 or callers_cover, "the function that writes a priority into the trees also updates the running maximum",
+          detail="_update_priority writes the trees without touching max_priority: a priority written through it (new or updated) "
+                 "is not reflected in the priority given to later transitions", construct="max_priority update in _update_priority")
     for n in mp:
         v = n.ast.value
         ok = isinstance(v, ast.Call) and call_name(v) == "max" and {ast.unparse(a) for a in v.args} == {"self.max_priority", "priority"}
@@ -401,4 +453,9 @@ VARIANTS = [
     ("retrieve-no-subtract", _STF, "                upperbound -= self.tree[left]\n", "", "fire", "C11.7"),
     ("retrieve-leaf-index", _STF, "        return idx - self.capacity", "        return idx", "fire", "C11.7"),
     ("update-priorities-misaligned", _RBF, "for idx, priority in zip(indices, priorities):", "for idx, priority in zip(indices, reversed(priorities)):", "fire", "C11.2"),
+]
+VARIANTS += [
+    ("max-update-moved-to-caller-loop-ok", _RBF, "        # Update max priority\n        self.max_priority = max(self.max_priority, priority)\n", "        pass\n", "fire", "C11.3"),
+    ("sum-tree-delta-override", _STF, "    def sum(self, start: int = 0, end: int = 0) -> float:",
+     "    def __setitem__(self, idx, val):\n        idx += self.capacity\n        delta = val - self.tree[idx]\n        self.tree[idx] = val\n        idx //= 2\n        while idx >= 1:\n            self.tree[idx] += delta\n            idx //= 2\n\n    def sum(self, start: int = 0, end: int = 0) -> float:", "fire", "C11.1"),
 ]
